@@ -116,19 +116,19 @@ def int (n : Nat) : PVal := .atom (.int n)
 /-- `asdict(C({((1,), 2): 3}, 4))` -/
 def witnessK13a : Case :=
   { api := .asdict, ng := false, recurse := true, retain := false, filter := .none, dictFactory := .dict,
-    tupleFactory := .tuple, ser := .off, fault := none,
+    tupleFactory := .tuple, ser := .off, fault := none, subst := none,
     value := .inst 0 none [(fx, .dict .dict [(.coll .tuple [.coll .tuple [int 1], int 2], int 3)]), (fy, int 4)] }
 
 /-- `asdict(C(NT1(1), 4), retain_collection_types=True)` -/
 def witnessK13b : Case :=
   { api := .asdict, ng := false, recurse := true, retain := true, filter := .none, dictFactory := .dict,
-    tupleFactory := .tuple, ser := .off, fault := none,
+    tupleFactory := .tuple, ser := .off, fault := none, subst := none,
     value := .inst 0 none [(fx, .coll (.ntuple 0) [int 1]), (fy, int 4)] }
 
 /-- `astuple(C({1: C(2, 3)}, 4), filter=exclude("y"))` -/
 def witnessK13c : Case :=
   { api := .astuple, ng := false, recurse := true, retain := false, filter := .excl [] ["y"] [],
-    dictFactory := .dict, tupleFactory := .tuple, ser := .off, fault := none,
+    dictFactory := .dict, tupleFactory := .tuple, ser := .off, fault := none, subst := none,
     value := .inst 0 none [(fx, .dict .dict [(int 1, .inst 0 none [(fx, int 2), (fy, int 3)])]), (fy, int 4)] }
 
 theorem old_fails_K13a : spec witnessK13a (Old.model witnessK13a) = false := by decide
